@@ -183,6 +183,31 @@ func (w *Workload) GenText(r *model.Rand, big bool) Base {
 	return Base{Argv: argv, Input: []byte(s.Text), InputArg: true, Class: "text"}
 }
 
+var yamlShapes = []string{
+	"- &a\n  chord: {degree: \"1\", name: \"\"}\n  values: [\"1\"]\n- *a\n- *a\n",
+	"- &a {values: [\"1\"], bpm: 90}\n- <<: *a\n  chord: {degree: \"5\", name: \"7\"}\n",
+	"- values: &v [\"1\", \"1/2\"]\n- values: *v\n  chord: {degree: \"2\", name: m}\n",
+	"- values: [\"1\"]\n---\n- values: [\"2\"]\n",
+	"---\n- values: [\"1\"]\n...\n---\n- chord: {degree: \"1\", name: \"\"}\n  values: [\"1\"]\n",
+	"- values: [\"1\"]\n  values: [\"2\"]\n",
+	"- chord: {degree: \"1\", name: \"\"}\n  chord: {degree: \"2\", name: m}\n  values: [\"1\"]\n",
+	"- values: 1\n", "- values: {a: b}\n", "- values: [[1]]\n", "- values: [1.5]\n", "- values: [-1]\n", "- values: [1e2]\n", "- values: [0x10]\n", "- values: [true]\n", "- values: [\" 1\"]\n", "- values: [\"1 \"]\n", "- values: [\"+1\"]\n", "- values: [\"1/2/3\"]\n", "- values: [\"/2\"]\n", "- values: [\"1/\"]\n",
+	"- values: [\"1\"]\n  bpm: [1]\n", "- values: [\"1\"]\n  bpm: -1\n", "- values: [\"1\"]\n  bpm: 1.5\n", "- values: [\"1\"]\n  bpm: \"1e2\"\n", "- values: [\"1\"]\n  bpm: ~\n", "- values: [\"1\"]\n  bpm: {a: 1}\n", "- values: [\"1\"]\n  bpm: 18446744073709551616\n",
+	"- values: [\"1\"]\n  velocity: 5\n", "- values: [\"1\"]\n  velocity: [f]\n", "- values: [\"1\"]\n  velocity: ~\n", "- values: [\"1\"]\n  velocity: \"\"\n",
+	"- values: [\"1\"]\n  meter: 4\n", "- values: [\"1\"]\n  meter: [4, 4]\n", "- values: [\"1\"]\n  meter: \"4/4/4\"\n", "- values: [\"1\"]\n  meter: ~\n", "- values: [\"1\"]\n  meter: \"\"\n",
+	"- values: [\"1\"]\n  key: 5\n", "- values: [\"1\"]\n  key: [C]\n", "- values: [\"1\"]\n  key: ~\n", "- values: [\"1\"]\n  key: \"\"\n", "- values: [\"1\"]\n  key: \"c\"\n", "- values: [\"1\"]\n  key: \"Cmaj\"\n", "- values: [\"1\"]\n  key: \"xxCyy\"\n",
+	"- values: [\"1\"]\n  meta: [a]\n", "- values: [\"1\"]\n  meta: {txt: [1]}\n", "- values: [\"1\"]\n  meta: {txt: {a: b}}\n", "- values: [\"1\"]\n  meta: {1: 2}\n", "- values: [\"1\"]\n  meta: {? [a] : b}\n", "- values: [\"1\"]\n  meta: \"txt\"\n",
+	"- chord: x\n  values: [\"1\"]\n", "- chord: [1, m]\n  values: [\"1\"]\n", "- chord: {degree: 1, name: 7}\n  values: [\"1\"]\n", "- chord: {degree: \"1\", name: ~}\n  values: [\"1\"]\n", "- chord: {degree: \"1\", name: [m]}\n  values: [\"1\"]\n", "- chord: {degree: \"1\", name: \"\", base: 3}\n  values: [\"1\"]\n", "- chord: {degree: \"1\", name: \"\", base: \"0\"}\n  values: [\"1\"]\n", "- chord: {degree: \"\", name: \"\"}\n  values: [\"1\"]\n",
+	"- !!set {values: ~}\n", "- !!binary aGVsbG8=\n", "- values: !!float [\"1\"]\n", "- values: [!!int \"1\"]\n", "- values: [!!str 1]\n", "- !foo\n  values: [\"1\"]\n",
+	"values: [\"1\"]\n", "\"just a string\"\n", "42\n", "- 42\n", "- [1, 2]\n", "- \"x\"\n", "- {}\n", "- ~\n- values: [\"1\"]\n", "[{values: [\"1\"]}]\n", "[{values: [\"1\"]},]\n",
+	"- values: [\"1\"]\n  unknown: field\n", "- Values: [\"1\"]\n", "- VALUES: [\"1\"]\n",
+	"- values:\n    - \"1" + strings.Repeat("0", 5000) + "\"\n", "- values: [\"1\"]\n  meta: {txt: \"" + strings.Repeat("x", 100000) + "\"}\n",
+	strings.Repeat("[", 2000) + strings.Repeat("]", 2000) + "\n", "- " + strings.Repeat("{a: ", 1000) + "1" + strings.Repeat("}", 1000) + "\n",
+	"a: &a [*a]\n", "- &x [*x]\n", "&a [" + strings.Repeat("*a,", 50) + "]\n",
+	"a: &a [1,1,1,1,1,1,1,1,1]\nb: &b [*a,*a,*a,*a,*a,*a,*a,*a,*a]\nc: &c [*b,*b,*b,*b,*b,*b,*b,*b,*b]\nd: &d [*c,*c,*c,*c,*c,*c,*c,*c,*c]\ne: &e [*d,*d,*d,*d,*d,*d,*d,*d,*d]\nf: [*e,*e,*e,*e,*e,*e,*e,*e,*e]\n",
+	"- values: [\"1\"]\n\t- bad indent\n", "- values: [\"1\"\n", "- values: [\"1\"]]\n", "%YAML 1.2\n---\n- values: [\"1\"]\n", "%TAG ! tag:x,2000:\n---\n- values: [\"1\"]\n",
+}
+
 // GenTextN draws a text command with about n items.
 func (w *Workload) GenTextN(r *model.Rand, n int) Base {
 	mode := model.Pick(r, []string{"syllable", "degree"})
@@ -235,6 +260,12 @@ func (w *Workload) GenDocCmd(r *model.Rand, big bool) Base {
 	d := model.GenDoc(r, o)
 	for len(d.Insts) < 300 && o.MaxInsts == 900 {
 		d.Insts = append(d.Insts, model.GenDoc(r, o).Insts...)
+	}
+	if w.Edge && r.Chance(1, 15) {
+		// valid YAML of unusual structure
+		raw := model.Pick(r, yamlShapes)
+		cmd := model.Pick(r, [][]string{{"write"}, {"write", "event"}, {"write", "parse"}, {"write", "conv", "-c", "cmt"}})
+		return Base{Argv: append([]string{}, cmd...), Input: []byte(raw), InputArg: true, Class: "doc", Tracks: 1}
 	}
 	if w.Edge && r.Chance(1, 25) {
 		// a chord that lacks a field, or has it null / of another type
